@@ -2,7 +2,7 @@
     Statements only; proofs are in CodecRT.v / CodecV1.v / Reload.v (generic in the format [f]);
     in the world-level theorem at the end every tree has its own format. *)
 From Coq Require Import List NArith ZArith Bool.
-From Mast Require Import WorldInv Prim Key Tree KeyOrder Codec CodecRT CodecV1 DecRT RootRT KeyRT Store Diff World Erase Build Spec Canon Links Level Inv Persist Hist Reload.
+From Mast Require Import Cache WorldInv Prim Key Tree KeyOrder Codec CodecRT CodecV1 DecRT RootRT KeyRT Store Diff World Erase Build Spec Canon Links Level Inv Persist Hist Reload.
 Import ListNotations.
 
 (** the compact binary node format round-trips for arbitrary element bodies (keys, values: any
@@ -173,8 +173,32 @@ Example C05_example_both_formats :
   map (fun x => pobs (fst x)) (run empty_world ex_ops_both) = arun2 ([], []) ex_ops_both.
 Proof. split; [apply condsb_ok; vm_compute; reflexivity|]. vm_compute. repeat split; reflexivity. Qed.
 
-(** PARTIAL: custom marshalers and caches are outside the model (decided by the correspondence
-    check); the round trip of keys of any other type (ordered and layered by their marshaled bytes) is a hypothesis ([key_rt], decidable). *)
+(** "... and with or without a node cache."  A cache is modelled as a partial map from names to
+    deserialized nodes that LoadMast consults before the store; it is COHERENT with a store when every
+    node it holds is the node the store holds under that name.  Opening any captured root of a
+    reachable world through any coherent cache gives exactly the tree, result and trace of opening it
+    from the store alone; and what the code does to a cache keeps it coherent: adding a node decoded
+    from the store or just written by a persist (commit), evicting anything at any time, and the
+    store growing by anybody's persists. *)
+Theorem C05_cache_transparent : forall f c st kind bf l rt,
+  good_root f st kind bf l rt -> coherent f kind c st -> load_mast_c c st kind rt = load_mast st kind rt.
+Proof. exact load_mast_c_transparent. Qed.
+Theorem C05_cache_add_keeps_coherence : forall f kind c s h n, coherent f kind c s -> sto f s kind h n -> coherent f kind (cadd c h n) s.
+Proof. exact coherent_add. Qed.
+Theorem C05_cache_evict_keeps_coherence : forall f kind c s drop, coherent f kind c s -> coherent f kind (cevict c drop) s.
+Proof. exact coherent_evict. Qed.
+Theorem C05_cache_coherent_after_any_persist : forall f kind c s t, coherent f kind c s -> coherent f kind c (apply_stores s t).
+Proof. exact coherent_after_persist. Qed.
+Theorem C05_cache_commit_keeps_coherence : forall f c s kind bf (m : kmast) l t rt m' h n',
+  kcanon bf m l -> root_allh f s kind m -> list_ok f kind l ->
+  make_root f m = (t, Ok (rt, m')) -> nocoll s t -> coherent f kind c s ->
+  m_root _ _ m' = LHash h n' ->
+  coherent f kind (cadd c h n') (apply_stores s t).
+Proof. exact coherent_after_commit. Qed.
+
+(** PARTIAL: custom marshalers are outside the model; that the REAL cache stays coherent (keyed by store
+    prefix + name, filled only after the write succeeded, never mutated in place) and object identity on
+    the Go heap are decided by the correspondence check with shared, evicting and cross-store caches; the round trip of keys of any other type (ordered and layered by their marshaled bytes) is a hypothesis ([key_rt], decidable). *)
 Print Assumptions C05_binary_roundtrip.
 Print Assumptions C05_uvarint_roundtrip.
 Print Assumptions C05_v1_roundtrip.
@@ -196,3 +220,8 @@ Print Assumptions C05_delete_keeps_links.
 Print Assumptions C05_root_stays_loadable.
 Print Assumptions C05_in_histories.
 Print Assumptions C05_example_both_formats.
+Print Assumptions C05_cache_transparent.
+Print Assumptions C05_cache_add_keeps_coherence.
+Print Assumptions C05_cache_evict_keeps_coherence.
+Print Assumptions C05_cache_coherent_after_any_persist.
+Print Assumptions C05_cache_commit_keeps_coherence.
